@@ -1,15 +1,26 @@
 import SaModel.Lemmas.C01R2
 /-
-`build_builder` establishes `Shape` (for the data types R2 covers: everything except view types and dictionaries).
+`build_builder` establishes `Shape` for the data types R2 covers: everything `build_builder` accepts except dictionaries
+other than `Dictionary(integer key, Utf8 | LargeUtf8)` (`build_builder` takes ANY key/value type for a dictionary —
+`Dictionary(Int8, Date32)` stores parsed dates, `Dictionary(Utf8, …)` gets string keys; R1 covers those, R2 does not).
 -/
 namespace SaModel.Build
 open SaModel SaModel.Spec
 
+/-- integer data types (the key types of an Arrow dictionary) -/
+def isIntDT : DataType → Bool
+  | .int8 | .int16 | .int32 | .int64 | .uint8 | .uint16 | .uint32 | .uint64 => true
+  | _ => false
+
+/-- the value types `DictionaryUtf8Builder` is meant for -/
+def isStrDT : DataType → Bool
+  | .utf8 | .largeUtf8 => true
+  | _ => false
+
 mutual
 /-- data types covered by R2 -/
 def covered : DataType → Bool
-  | .utf8View | .binaryView => false
-  | .dictionary _ _ => false
+  | .dictionary k v => isIntDT k && isStrDT v
   | .list f | .largeList f => coveredF f
   | .fixedSizeList f _ => coveredF f
   | .map f _ => coveredF f
@@ -91,8 +102,10 @@ theorem newDT_shape : ∀ (dt : DataType) (path : String) (n : Bool) (md : Metad
     simp only [newDT] at h; cases h; simp only [Shape]; exact ⟨rfl, isSome_newValidity n⟩
   | .largeBinary, path, n, md, b, _, h => by
     simp only [newDT] at h; cases h; simp only [Shape]; exact ⟨rfl, isSome_newValidity n⟩
-  | .utf8View, _, _, _, _, hc, _ => by simp [covered] at hc
-  | .binaryView, _, _, _, _, hc, _ => by simp [covered] at hc
+  | .utf8View, path, n, md, b, _, h => by
+    simp only [newDT] at h; cases h; simp only [Shape]; exact ⟨rfl, isSome_newValidity n⟩
+  | .binaryView, path, n, md, b, _, h => by
+    simp only [newDT] at h; cases h; simp only [Shape]; exact ⟨rfl, isSome_newValidity n⟩
   | .fixedSizeBinary k, path, n, md, b, _, h => by
     simp only [newDT] at h
     split at h
@@ -187,7 +200,17 @@ theorem newDT_shape : ∀ (dt : DataType) (path : String) (n : Bool) (md : Metad
     · cases h
       simp only [Shape]
       exact ⟨isSome_newValidity n, fs, rfl, hsl⟩
-  | .dictionary _ _, _, _, _, _, hc, _ => by simp [covered] at hc
+  | .dictionary k v, path, n, md, b, hc, h => by
+    simp only [newDT] at h
+    obtain ⟨kb, h1, h⟩ := (bind_ok _ _ _).1 h
+    obtain ⟨vb, h2, h⟩ := (bind_ok _ _ _).1 h
+    cases h
+    simp only [covered, Bool.and_eq_true] at hc
+    simp only [Shape]
+    refine ⟨⟨k, v, rfl⟩, ?_, ?_, ?_⟩
+    · cases k <;> simp [isIntDT] at hc <;> (simp only [newDT] at h1; cases h1; rfl)
+    · cases k <;> simp [isIntDT] at hc <;> (simp only [newDT] at h1; cases h1; exact isSome_newValidity n)
+    · cases v <;> simp [isStrDT] at hc <;> (simp only [newDT] at h2; cases h2; rfl)
   | .union ufs mode, path, n, md, b, hc, h => by
     simp only [newDT] at h
     obtain ⟨bl, h1, h⟩ := (bind_ok _ _ _).1 h
